@@ -1,7 +1,7 @@
 # c17.py — property C17: bufr_subset_find_descriptor / bufr_subset_find_values return the FIRST match, honouring value,
 # range, missing and qualifier keys.  Proof (Properties_C17.v) + correspondence Search.v <-> bufr_api.c/bufr_value.c/
 # bufr_dataset.c/bufr_meta.c + an independent brute-force oracle written from the property statement (exact rationals).
-import glob, os, random, struct
+import glob, itertools, os, random, struct
 from fractions import Fraction
 import vlib, tables
 
@@ -633,7 +633,6 @@ def gen_generated(rng, tb, tier):
     # (a) exhaustive: every subset of length 1..N over two descriptors x every descriptor key sequence of length 1..3 (+ absent)
     a, b, c = 11001, 11002, 13003
     N = 5 if tier == "quick" else 7
-    import itertools
     for n in range(1, N + 1):
         for ds in itertools.product((a, b), repeat=n):
             sub = " ".join("%d=m" % d for d in ds)
@@ -816,7 +815,6 @@ def run(rep, tier, seed, replay=None):
     g = Gen(random.Random(0), tb)
     if replay:
         lines = list(replay.get("cases", []))
-        intended = {}
     else:
         lines = [WITNESS[k] for k in DEVS]
         # inclusive bounds exactly on the value, in every key type (the FLT64 bounds are the element's own double)
@@ -879,9 +877,10 @@ def run(rep, tier, seed, replay=None):
     # ---------------- compare
     dist = {"find_descriptor": 0, "find_values": 0, "generated": 0, "sample": 0, "found_some": 0, "none_found": 0, "oracle_abstains": 0,
             "with_partial_matches": 0, "qualifier_keys": 0, "range_keys": 0, "missing_keys": 0, "multi_value_keys": 0, "callback_keys": 0,
-            "string_keys": 0, "near_value_keys": 0, "keylen_1": 0, "keylen_2": 0, "keylen_3": 0, "keylen_4": 0, "start_positions": 0,
+            "string_keys": 0, "keylen_1": 0, "keylen_2": 0, "keylen_3": 0, "keylen_4": 0, "start_positions": 0,
             "known_defect_cases": 0}
     nbad = 0
+    ncorr = 0
     sanity_reported = False
     for i, ln in enumerate(lines):
         rep.count(ln)
@@ -963,7 +962,6 @@ def run(rep, tier, seed, replay=None):
             if wants != cres:
                 # is it one of the recorded defects (and nothing else)?
                 explained = None
-                import itertools
                 shown = [d for d in DEVS if not vbits[d]]       # only defects this library actually shows on their witnesses
                 for r in range(1, len(shown) + 1):
                     for combo in itertools.combinations(shown, r):
@@ -993,15 +991,18 @@ def run(rep, tier, seed, replay=None):
             rep.violation("C17: %s  [case: %s]" % (fail, ln[:400]),
                           {"kind": "search", "cases": [ln], "impl": co[:800], "model": ml[:400], "oracle": str(want)[:400]})
             nbad += 1
+        elif not same and ncorr > 4:
+            ncorr += 1           # keep looking for a failing input; enough correspondence reports are recorded
         elif not same:
             rep.violation("C17: correspondence Search.v (variant %s) <-> bufr_subset_find_values/bufr_expand_qualifiers broken on case %s (impl quals [%s] results [%s]; model quals [%s] results [%s]); the brute-force oracle %s"
                           % (vstr, ln[:200], cquals[:80], " ".join(cres)[:80], mquals[:80], " ".join(mr)[:80],
                              "abstains (input outside the property's domain)" if want == ABSTAIN else "accepts the implementation's behaviour or the difference is a recorded defect"),
                           {"kind": "search", "correspondence": "Search.find_values/expand_qualifiers vs bufr_api.c/bufr_dataset.c", "cases": [ln], "impl": co[:800], "model": ml[:400]},
                           no_input=True)
-            nbad += 1
+            ncorr += 1
         if nbad > 12:
             break
+    rep.violations.sort(key=lambda v: bool(v[2]))      # failing inputs first, correspondence-only reports after
     if "runtime error" in cerr and not rep.violations:
         rep.violation("C17: UBSan report while running the search cases: " + " | ".join(l for l in cerr.split("\n") if "runtime error" in l)[:600],
                       {"kind": "search", "stderr": cerr[-3000:]}, no_input=True)
